@@ -75,22 +75,14 @@ def sub(tier, cfg, out):
     return 0
 
 def run_cfg(tier, cfg):
-    fd, out = tempfile.mkstemp(prefix='c19', dir=os.path.join(vf.VERIF, 'build')); os.close(fd)
-    r = subprocess.run([sys.executable, os.path.join(vf.VERIF, 'vcheck'), PROP, '--tier', tier, '--sub', cfg, '--out', out],
-                       stdout=subprocess.PIPE, stderr=subprocess.STDOUT, text=True)
-    try:
-        return json.load(open(out)), None
-    except Exception:
-        return None, r.stdout[-600:]
-    finally:
-        os.unlink(out)
+    return vf.run_sub(PROP, tier, cfg, prefix='c19')
 
 def run(tier):
     chk = vf.Check(PROP, tier, deadline_s=1500 if tier == 'quick' else 7200)
     cs = cases_for(tier)
     base, err = run_cfg(tier, PRIMARY)
     if base is None:
-        chk.violation('harness:' + PRIMARY, {'cfg': PRIMARY, 'kind': 'none'}, 'primary configuration failed: %s' % err)
+        chk.harness_error('primary configuration failed: %s' % err)
         return chk.finish('C19', '')
     done = []
     for cfg in CFGS:
@@ -100,7 +92,7 @@ def run(tier):
             chk.cap('deadline before configuration ' + cfg); continue
         d, err = run_cfg(tier, cfg)
         if d is None:
-            chk.violation('harness:' + cfg, {'cfg': cfg, 'kind': 'none'}, 'configuration %s failed to run: %s' % (cfg, err)); continue
+            chk.harness_error('configuration %s failed to run: %s' % (cfg, err)); continue
         n = 0
         for (f, c), a, b in zip(cs, base, d):
             n += 1
@@ -115,7 +107,7 @@ def run(tier):
             chk.cap('deadline before word-level configuration ' + cfg); continue
         w, err = run_cfg(tier, 'word:' + cfg)
         if w is None:
-            chk.violation('harness:word:' + cfg, {'cfg': cfg, 'kind': 'none'}, 'word-level configuration %s failed to run: %s' % (cfg, err)); continue
+            chk.harness_error('word-level configuration %s failed to run: %s' % (cfg, err)); continue
         for v in w['viol']:
             chk.violation('%s:%s' % (cfg, v['key']), v['rec'], '%s (configuration %s; the primary configuration satisfies the formula, see C05)' % (v['msg'], cfg))
         for c in w['caps']:
@@ -128,7 +120,7 @@ def run(tier):
     for cfg in ['w32', 'dbg32', 'w32fast', 'fast', 'rel3', 'clang', 'dbgp']:
         d, err = run_cfg(tier, 'pri:' + cfg)
         if d is None or base_pri is None:
-            chk.violation('harness:pri:' + cfg, {'cfg': cfg, 'kind': 'none'}, 'prime sweep in %s failed to run: %s' % (cfg, err)); continue
+            chk.harness_error('prime sweep in %s failed to run: %s' % (cfg, err)); continue
         if d['digest'] != base_pri['digest']:
             chk.violation('%s:pri-sweep' % cfg, {'cfg': cfg, 'kind': 'pri'},
                           'priIsPrimeW / priNextPrimeW over the windows %s: configuration %s answers differently from %s (C12 decides which integers)' % (
